@@ -476,6 +476,7 @@ fn main() {
             }
         }
     }
+    ctx.owner_fx = all_owner_fx.clone();
     // every other top-level `const` of the unit's source files is copied too, so that a function which starts
     // to use a (new) constant is still decided instead of failing to compile
     // likewise a top-level `type` alias, `enum` or `struct` that neither a `copy` directive nor a prelude defines is copied
